@@ -105,6 +105,9 @@ func RunOne(t *testing.T, req RunReq) (res RunRes) {
 	if v := plan.Param("max_steps", 0); v > 0 {
 		cfg.MaxSteps = int(v)
 	}
+	if plan.Param("coarse", 0) > 0 && req.Replay == nil {
+		cfg.FineMod = 0 // bulk workloads: statement-level parks would only burn the step budget
+	}
 	if req.Dump != "" {
 		rf := ReplayFile{Prop: req.Prop, Seed: req.Seed, Tier: req.Tier, Variant: req.Variant, Cfg: cfg, Plan: plan}
 		b, _ := json.Marshal(rf)
